@@ -109,6 +109,10 @@ func genGeneralName(kinds []string) J {
 	k := choose(kinds)
 	switch k {
 	case "ip":
+		if chance(1, 5) {
+			// octets are decimal whatever they look like: zero-padded octets must keep their value
+			return J{"type": "ip", "name": fmt.Sprintf("%03d.%03d.%02d.%d", choose([]int{10, 17, 8, 64}), rng.Intn(100), rng.Intn(100), rng.Intn(256))}
+		}
 		return J{"type": "ip", "name": fmt.Sprintf("%d.%d.%d.%d", choose([]int{0, 1, 127, 128, 255, 10}), rng.Intn(256), rng.Intn(256), choose([]int{0, 1, 254, 255}))}
 	case "dns":
 		return J{"type": "dns", "name": stretch(choose([]string{"a.example", "www.example.org", "*.wild.example", "xn--bcher-kva.example"}))}
@@ -327,6 +331,10 @@ func daysIn(y, m int) int {
 // genDate draws a calendar date, valid unless `invalidOk` (then 1 in 10 is an impossible one)
 func genDateV(invalidOk bool) string {
 	y := choose([]int{1950, 1999, 2000, 2024, 2025, 2049, 2050, 2051, 2199, 1970, 2038, 2100})
+	if chance(1, 8) {
+		// far from now: outside what 64-bit nanosecond counts cover (1677 … 2262), the GeneralizedTime range, the year limits
+		y = choose([]int{1, 1000, 1600, 1677, 1678, 1949, 2262, 2263, 3000, 9998, 9999})
+	}
 	m := 1 + rng.Intn(12)
 	d := 1 + rng.Intn(daysIn(y, m))
 	if chance(1, 4) {
@@ -346,7 +354,7 @@ func genDate() string { return genDateV(false) }
 func genDuration() string {
 	s := ""
 	if chance(1, 2) {
-		s += fmt.Sprintf("%dy", choose([]int{0, 1, 5, 10, 30}))
+		s += fmt.Sprintf("%dy", choose([]int{0, 1, 5, 10, 30, 300}))
 	}
 	if chance(1, 2) {
 		s += fmt.Sprintf("%dm", choose([]int{0, 1, 6, 11, 13, 25}))
